@@ -147,24 +147,18 @@ def child_obj():
     return ("enum", "Self", {"state": st, "errors": MutList(), "validating_value": False})
 
 
-def r_occreset(ctx, rid="C10.occreset"):
-    ctx.rule(rid, "visit_value_member_key_entry (JSON and CBOR): whatever occurrence is in force on entry (the entry's own or one inherited "
-                  "from an enclosing group, state.occurrence), it is cleared (state.occurrence = None) when the entry has consumed its "
-                  "pair(s) and returns Ok — otherwise it leaks onto the next sibling member and the verdict depends on member order "
-                  "(abstract evaluation with scripted key/value visitors)", floor=12)
-    f = ctx.facts
+def entry_runs(f):
+    """abstract runs of visit_value_member_key_entry; yields dict rows (key, file, line, ok, occurrence_after, location_after | unknown)"""
     for which in ("json", "cbor"):
         file, ty = vt.VIS[which]
         for branch in ("repeating", "single"):
             for own in (None, "ZeroOrMore", "Optional"):
                 for inherited in (None, "ZeroOrMore", "Optional"):
-                    if own is None and inherited is None:
-                        continue
                     if branch == "repeating" and own == "Optional":
                         continue
                     key = "%s|%s|own=%s|inherited=%s" % (which, branch, own, inherited)
                     occ = lambda k: ("None",) if k is None else ("Some", ("enum", "Occur::" + k, {}))
-                    state = ("enum", "ValidationState", {"occurrence": occ(inherited), "data_location": OPAQUE, "is_member_key": False,
+                    state = ("enum", "ValidationState", {"occurrence": occ(inherited), "data_location": ("str", "root"), "is_member_key": False,
                                                          "advance_to_next_entry": False, "is_multi_type_choice": False, "is_multi_group_choice": False,
                                                          "type_group_name_entry": ("None",), "generic_rules": MutList(), "eval_generic_rule": ("None",),
                                                          "cddl": OPAQUE, "enabled_features": OPAQUE})
@@ -183,6 +177,8 @@ def r_occreset(ctx, rid="C10.occreset"):
                             selfo[2]["map_entry_candidates"] = ("Some", cands)
                         else:
                             selfo[2]["object_value"] = ("Some", OPAQUE)
+                            # the key visitor appends the key to the location of the member it found
+                            selfo[2]["state"][2]["data_location"] = ("str", "root/key")
                         return ("Ok", ("tuple", []))
 
                     def mkchild(run, it, node, a):
@@ -193,21 +189,37 @@ def r_occreset(ctx, rid="C10.occreset"):
                                "validate_repeating_member_count": lambda r, it, node, recv: ("tuple", []),
                                "repeating_member_upper_bound": lambda r, it, node, a: ("None",)}
                     run = vt.ObjRun(f, file, ty, inline={"visit_occurrence"}, scripts=scripts)
-                    # visit_occurrence lives in the Visitor impl
                     for fi2 in f.fns(file):
-                        if fi2.impl_self == ty and fi2.name == "visit_occurrence":
-                            run.methods.setdefault("visit_occurrence", []).append(fi2)
-                        if fi2.impl_self == ty and fi2.name == "visit_value_member_key_entry":
-                            run.methods.setdefault("visit_value_member_key_entry", []).append(fi2)
+                        if fi2.impl_self == ty and fi2.name in ("visit_occurrence", "visit_value_member_key_entry"):
+                            run.methods.setdefault(fi2.name, []).append(fi2)
+                    fi = run.fn("visit_value_member_key_entry")
+                    row = {"key": key, "file": file, "line": fi.line, "which": which, "branch": branch, "own": own, "inherited": inherited}
                     try:
                         v = run.call("visit_value_member_key_entry", selfo, {"entry": entry})
                     except absint.Unknown as e:
-                        ctx.incomplete_msg(rid, "%s: %s" % (key, e))
+                        row["unknown"] = str(e)
+                        yield row
                         continue
-                    fi = run.fn("visit_value_member_key_entry")
-                    after = state[2]["occurrence"]
-                    ctx.site(rid, key, file, fi.line, {"result": repr(v)[:30], "occurrence_after": repr(after)[:50]})
-                    if isinstance(v, tuple) and v[0] == "Ok" and after != ("None",):
-                        ctx.violation(rid, key, file, fi.line,
-                                      "%s visit_value_member_key_entry (%s member, own occurrence %s, inherited %s) returns Ok with state.occurrence = %s: "
-                                      "the occurrence applies to the next sibling member as well" % (which, branch, own, inherited, repr(after)[:60]))
+                    loc = state[2]["data_location"]
+                    row.update({"ok": isinstance(v, tuple) and v[0] == "Ok", "occurrence_after": state[2]["occurrence"],
+                                "location_after": loc[1] if isinstance(loc, tuple) and loc[:1] == ("str",) else repr(loc)[:40]})
+                    yield row
+
+
+def r_occreset(ctx, rid="C10.occreset"):
+    ctx.rule(rid, "visit_value_member_key_entry (JSON and CBOR): whatever occurrence is in force on entry (the entry's own or one inherited "
+                  "from an enclosing group, state.occurrence), it is cleared (state.occurrence = None) when the entry has consumed its "
+                  "pair(s) and returns Ok — otherwise it leaks onto the next sibling member and the verdict depends on member order "
+                  "(abstract evaluation with scripted key/value visitors)", floor=12)
+    for row in entry_runs(ctx.facts):
+        if row["own"] is None and row["inherited"] is None:
+            continue
+        if row.get("unknown"):
+            ctx.incomplete_msg(rid, "%s: %s" % (row["key"], row["unknown"]))
+            continue
+        after = row["occurrence_after"]
+        ctx.site(rid, row["key"], row["file"], row["line"], {"occurrence_after": repr(after)[:50]})
+        if row["ok"] and after != ("None",):
+            ctx.violation(rid, row["key"], row["file"], row["line"],
+                          "%s visit_value_member_key_entry (%s member, own occurrence %s, inherited %s) returns Ok with state.occurrence = %s: "
+                          "the occurrence applies to the next sibling member as well" % (row["which"], row["branch"], row["own"], row["inherited"], repr(after)[:60]))
